@@ -39,9 +39,12 @@ def coq_shards(T, full):
     """[(name, text, fn, [call records])]: per function (big ones split along the first required parameter)"""
     rid = T["rid"]
     jobs = []
-    tag = "full" if full else "red"
+    tag = "ext" if full == "ext" else ("full" if full else "red")
+    algs = set(TR.alg_names(T))
     for fn, d in T["funcs"].items():
         req, opt = TR.choices(T, fn, full)
+        if full == "ext" and not any(c and set(c) <= algs for c in opt):
+            continue        # no algorithm parameter: the extended lattice adds nothing
         per_first = 1
         for c in req[1:]:
             per_first *= len(c)
@@ -51,7 +54,7 @@ def coq_shards(T, full):
         for k in range(0, len(first), step):
             sub = first[k:k + step]
             cs = LT.calls([sub] + req[1:], opt)
-            jobs.append(dict(fn=fn, sub=sub, calls=cs, name=f"c04_{tag}_{fn}_{k // step}"))
+            jobs.append(dict(fn=fn, sub=sub, calls=cs, name=f"c04_{tag}_{fn}_{k // step}", tag=tag))
     return jobs
 
 
@@ -124,9 +127,12 @@ def run(ctx):
         mismatches.append(dict(oracle_fail=False, what="coq/C04_RuleTable.v on disk differs from the table regenerated in this process (translator not deterministic?)"))
 
     # 1. live verdicts on the lattice + Coq verdicts, compared inside Coq
-    jobs = coq_shards(T, full)
+    # ... on the admissible lattice (a unique rule is required) and on the extended lattice with EVERY Algorithm
+    # subclass of the live package in every algorithm position (ties are never acceptable there)
+    jobs = coq_shards(T, full) + coq_shards(T, "ext")
     t0 = time.time()
     nonunique = []
+    ext_ties = {}
     ncalls = 0
     seen_disp = {}
     for job in jobs:
@@ -140,13 +146,16 @@ def run(ctx):
                 seen_disp[key] = LT.live_verdict(d["function"], d["rules"], [T["reps"][n].obj for n in da])
             v = seen_disp[key]
             exp.append(v)
-            if v < 2:
+            if job["tag"] == "ext":
+                if v == 1:
+                    ext_ties.setdefault((fn, tuple(da)), (req, opt))
+            elif v < 2:
                 nonunique.append((fn, req, opt, da, v))
         job["expected"] = exp
         ncalls += len(exp)
     extra["live_seconds"] = round(time.time() - t0, 1)
     t0 = time.time()
-    res = CB.coqc_many([(j["name"], shard_text(T, j, tag, j["expected"])) for j in jobs], timeout=900)
+    res = CB.coqc_many([(j["name"], shard_text(T, j, j["tag"], j["expected"])) for j in jobs], timeout=900)
     extra["coq_seconds"] = round(time.time() - t0, 1)
     for job, (rc, out) in zip(jobs, res):
         p = parse_coq(out) if rc == 0 else None
@@ -177,6 +186,11 @@ def run(ctx):
                                    case=f"{fn}{tuple(da)}", variant0=v, variant1=v1))
     extra["abstraction_checked"] = nabs
 
+    seen_nu = {(fn, tuple(da)) for (fn, req, opt, da, v) in nonunique}
+    for (fn, da), (req, opt) in ext_ties.items():
+        if (fn, da) not in seen_nu:
+            nonunique.append((fn, req, opt, list(da), 1))
+    extra["extended_lattice_ties"] = len(ext_ties)
     # 3. non-unique tuples: known list or violation (replayed through the public call)
     known_txt, _ = core.parse_known()
     adopted = {k["flag"] for k in known_txt if k["property"] == "C04"}
